@@ -1,5 +1,14 @@
-(* C09 -- Pod CIDRs never overlap the configured service ranges. *)
-From NIPAM Require Import Sys Alloc_proofs Inv_proofs Pool_proofs Geom_proofs.
+(* C09 -- Pod CIDRs never overlap the configured service ranges.
+   Pool level: occupying a service range marks every block it overlaps; candidates avoid marked blocks.
+   History level (Svc_proofs.v): in every world reachable by well-formed operations, every entry mapped by the constructor
+   of the running incarnation (ghost flag cc_start: its ClusterCIDR was known at start-up) has every block that overlaps a
+   service range of that incarnation in use -- through allocation attempts and their roll-back, node releases (which
+   occupy the service ranges again after every released pod CIDR: repair of D22), ClusterCIDR work items, crashes and
+   restarts (also with other service ranges).  Hence no PATCH of any history carries a block taken from such an entry
+   that overlaps a service range; on success the node is associated with that very entry.
+   The invariant did NOT hold on the tree before the repair aeef8fa: ReleaseCIDR freed the marked blocks (D22). *)
+From NIPAM Require Import Sys Alloc_proofs Inv_proofs Pool_proofs Geom_proofs World_proofs Svc_proofs.
+From Coq Require Import Lia.
 Open Scope N_scope.
 
 (* occupying a service range in a pool marks every block it overlaps (whatever the relative sizes:
@@ -32,3 +41,66 @@ Theorem C09_construction_invariant :
   construct po lab ccs outs s1 s2 nodes = (m, fx, pan) -> MapInv m.
 Proof. exact construct_inv. Qed.
 Print Assumptions C09_construction_invariant.
+
+(* ---------- over histories ---------- *)
+(* the marks are never removed: in every reachable world, every entry mapped by the constructor of the running
+   incarnation has every block overlapping one of its service ranges in use *)
+Theorem C09_service_blocks_stay_occupied_in_every_history :
+  forall po lab ops, Forall wf_op ops ->
+  let w := run po lab init_world ops in
+  forall m, w_ctl w = Some m ->
+  forall e, In e (all_entries m) -> cc_start e = true ->
+  forall svc, In svc (svc_list (w_svc w)) ->
+  forall p, pool_of e (cf svc) = Some p ->
+  forall i, i < maxc (pg p) -> overlap (block (pg p) i) svc -> In (block (pg p) i) (used p).
+Proof. intros po lab ops H w m Em e He Hst svc Hsvc p Hp. exact (service_marks_in_every_history po lab ops H m Em e He Hst svc Hsvc p Hp). Qed.
+Print Assumptions C09_service_blocks_stay_occupied_in_every_history.
+
+(* no PATCH of any history carries a block of a start-up entry that overlaps a service range: the CIDRs of every PATCH
+   were taken from ONE entry e of the controller's state; if e was mapped by the constructor none of them overlaps a
+   service range; when the work item succeeds, the node is associated with the entry at the same place, which has the
+   same ghost flag and holds the CIDRs *)
+Theorem C09_no_patch_from_a_startup_entry_overlaps_a_service_range :
+  forall po lab ops o w' ob, Forall wf_op ops ->
+  let w := run po lab init_world ops in
+  step po lab w o = (w', ob) ->
+  forall nm cs out, In (FxPatch nm cs out) (ob_fx ob) ->
+  exists m m' r, w_ctl w = Some m /\ (r <> Panic -> w_ctl w' = Some m') /\
+  exists p e, get_entry m p = Some e /\
+    (cc_start e = true -> forall x, In x cs -> forall svc, In svc (svc_list (w_svc w)) -> ~ overlap x svc) /\
+    (r = Ok tt -> exists e', get_entry m' p = Some e' /\ cc_start e' = cc_start e /\ has_str nm (cc_assoc e') = true /\
+                   forall x, In x cs -> exists pl, pool_of e' (cf x) = Some pl /\ In x (used pl)).
+Proof. intros po lab ops o w' ob H w Hs nm cs out He. exact (history_patches_avoid_service_ranges po lab ops o w' ob H Hs nm cs out He). Qed.
+Print Assumptions C09_no_patch_from_a_startup_entry_overlaps_a_service_range.
+
+(* the constructor flags every entry it maps, later creations are not flagged *)
+Theorem C09_constructor_marks_every_entry :
+  forall po lab ccs outs s1 s2 nodes m fx pan,
+  Forall good_obj ccs -> Forall wf_node nodes ->
+  (forall s, s1 = Some s -> wf_cidr s) -> (forall s, s2 = Some s -> wf_cidr s) ->
+  construct po lab ccs outs s1 s2 nodes = (m, fx, pan) -> SInv (svc_list (s1, s2)) m.
+Proof. exact construct_svc. Qed.
+Print Assumptions C09_constructor_marks_every_entry.
+
+(* non-vacuity, and the history of D22: the service range 10.0.0.0/28 is configured; a ClusterCIDR created AFTER start-up
+   (not filtered: outside the property) gives n1 the block 10.0.0.0/28; restart: the ClusterCIDR is now known at start-up
+   and filtered; n1 is deleted and released; n2 is NOT given 10.0.0.0/28 but the next block *)
+Example C09_history_nonvacuous :
+  let po0 : parse_oracle := fun _ => Some [] in
+  let lab0 : label_oracle := fun k => [cl k] in
+  let svc := mkCidr V4 167772160 28 in
+  let ops := [Construct (Some svc) None []; StartInformers;
+              UCreateCC (mkCCObj [99] (FOk (mkCidr V4 167772160 26)) FEmpty 4 (Some [107]) [] false 1 0 0); DeliverCC; ProcCC UOk; DeliverCC; ProcCC UOk;
+              UCreateNode [110;49] [] []; DeliverNode; ProcNode [POk]; DeliverNode; Crash;
+              Construct (Some svc) None [UOk]; StartInformers; ProcCC UOk; ProcNode [POk];
+              UDeleteNode [110;49]; DeliverNode; ProcNode [POk]; UCreateNode [110;50] [] []; DeliverNode; ProcNode [POk]] in
+  Forall wf_op ops /\
+  map (fun a => (an_name a, an_cidrs a)) (w_nodes (run po0 lab0 init_world ops)) = [([110;50], [PGood (mkCidr V4 167772176 28) true])] /\
+  map (fun e => (cc_name e, cc_start e)) (match w_ctl (run po0 lab0 init_world ops) with Some m => all_entries m | None => [] end) = [([99], true)].
+Proof.
+  cbv zeta. split; [|split; vm_compute; reflexivity].
+  repeat constructor; cbn; try (intros ? E; discriminate E);
+    try (unfold good_obj, good_field, good_range, wf_cidr; cbn; repeat split; try lia; try discriminate; intros [? _]; discriminate).
+  all: try (intros s E; inversion E; subst; unfold wf_cidr; cbn; repeat split; try lia; reflexivity).
+  all: try (match goal with H : Some _ = Some ?s |- _ => inversion H; subst; cbn; try lia; reflexivity end).
+Qed.
